@@ -162,8 +162,14 @@ pub fn macro_body(p: &Prog) -> String {
             None => t.push_str(&init_core),
             Some(c) => t.push_str(&format!("{{ cap({}); {} }}", c.id, init_core)),
         }
+        // thread-spawning macro with an explicit `lazy_branches(false)`: the branch expression of a step is
+        // handed to the thread as it is, so every step ends in `-> defer` (a closure returning the value)
+        let eager_spawn = p.eager_spawn();
         for (si, cell) in br.steps.iter().enumerate() {
             acts(&mut t, cell, asy, asy, p.flavor, si > 0, &muts);
+            if eager_spawn {
+                t.push_str(if cell.is_empty() && si > 0 { " ~-> defer" } else { " -> defer" });
+            }
         }
         parts.push(t);
     }
